@@ -9,7 +9,7 @@ import (
 
 func main() {
 	if len(os.Args) > 1 && os.Args[1] == "table" {
-		acc, err := astacc.Collect("/repo")
+		acc, err := astacc.Collect(astacc.RepoDir())
 		if err != nil {
 			panic(err)
 		}
@@ -19,7 +19,7 @@ func main() {
 		return
 	}
 	if len(os.Args) > 1 && os.Args[1] == "table-coq" {
-		acc, err := astacc.Collect("/repo")
+		acc, err := astacc.Collect(astacc.RepoDir())
 		if err != nil {
 			panic(err)
 		}
